@@ -134,6 +134,7 @@ func (s *State) strBasics(a string) {
 	s.assume(implies(app("digits", a), and(app("clean", a), app("noNL", a), app("noCTL", a))))
 	s.assume(implies(app("noCTL", a), and(app("clean", a), app("noNL", a))))
 	s.assume(implies(app("sgr", a), and(app("noCTL", a), app(">=", app("blen", a), "1"))))
+	s.assume(implies(and(app("digits", a), app(">=", app("blen", a), "1")), app("sgr", a)))
 	s.assume(eq(eq(app("blen", a), "0"), eq(a, "emp")))
 }
 
